@@ -3,6 +3,7 @@ CONSTANTS
   W = 4
   MaxDepth = 4
   Bound = 256
+  Dense = TRUE
 VIEW View
 INVARIANT Exactness
 INVARIANT StepOK
